@@ -94,10 +94,18 @@ def run_batch_real(params: Dict[str, Any]) -> Dict[str, Any]:
         prng = random.Random(params["seed"] ^ 0x5EED)
         targets = ("transport/in_memory.py", "job_queue/worker.py", "job_queue/queue_orchestrator.py")
 
+        focus = params["perturb"] == "focus"     # long pauses inside publish(): between looking a channel up and appending
+
         def _tracer(frame, event, arg):
             if frame.f_code.co_filename.endswith(targets):
-                if event == "line" and prng.random() < params["perturb"]:
-                    time.sleep(prng.random() * 0.0004)
+                if event == "line":
+                    if focus:
+                        if frame.f_code.co_name == "publish" and prng.random() < 0.7:
+                            time.sleep(prng.random() * 0.004)
+                        elif prng.random() < 0.05:
+                            time.sleep(prng.random() * 0.0004)
+                    elif prng.random() < params["perturb"]:
+                        time.sleep(prng.random() * 0.0004)
                 return _tracer
             return None
         threading.settrace(_tracer)
@@ -242,14 +250,14 @@ def check(tier: str) -> int:
     run.require_actions(["Enqueue", "MasterPublish", "WorkerTake", "WorkerRunOk", "WorkerRunFail", "MasterResolve"])
     rng = random.Random(core.seed() + 15)
     plist = []
-    nb = 48 if tier == "quick" else 600
+    nb = 64 if tier == "quick" else 600
     for b in range(nb):
         n = rng.choice([1, 2, 3, 4, 5, 6, 8, 12]) if b % 12 else (40 if tier != "quick" or b == 0 else 20)
         # a failing job at every position over the batches of one size, plus batches without failures
         fail_at = [] if b % 4 == 3 else sorted({b % n} | ({rng.randrange(n)} if rng.random() < 0.3 else set()))
         plist.append({"seed": core.seed() * 9973 + b, "njobs": n, "nworkers": rng.randint(1, 4),
                       "switch": 10 ** rng.uniform(-6, -2.3), "fail_at": fail_at, "timeout": 90.0,
-                      "perturb": [0, 0.05, 0.25][b % 3]})
+                      "perturb": [0, 0.05, 0.25, "focus"][b % 4]})
     hist = []
     for chunk in pmap(batch_chunk, plist, chunk=3, tasks_per_child=4):
         hist += chunk
